@@ -1,7 +1,7 @@
 (* ===== C03 : rank reduction -- combinatorial core ===== *)
 From Coq Require Import List NArith ZArith QArith Qcanon Bool Arith Permutation.
 Import ListNotations.
-Require Import Scope ScopeP1 ScopeP2 ScopeP3 Mat MatScope MatSep MatLoop.
+Require Import Scope ScopeP1 ScopeP2 ScopeP3 Mat MatScope MatSep MatLoop DummySpan.
 
 (* Component semantics: a scoped term with numeric factors N, reduced factors R and full categorical factors F denotes the
    interval { S | N u R <= S <= N u R u F } of the subset lattice ([covers]); columns are independent iff the emitted
@@ -54,6 +54,17 @@ Example C03_example :
   Scope.simplify 4 [[]; [(A, true)]] = [[(A, false)]].
 Proof. vm_compute. auto. Qed.
 
+(* the single-factor case of "rank reduction leaves the column space unchanged": the dummies of ALL levels add up to the intercept row by row,
+   so the dropped reference dummy is the intercept minus the remaining dummies ([1 | reduced] and [full] are expressible in one another) *)
+Theorem C03_full_dummies_sum_to_intercept : forall v lvs i s, NoDup lvs -> nth_error v i = Some (Some s) -> In s lvs ->
+  exists cells, Forall2 (fun lv c => nth_error (indicator v lv) i = Some (Some c)) lvs cells /\ qsum cells = q1.
+Proof. exact full_dummies_sum_to_one. Qed.
+Theorem C03_reference_dummy_is_intercept_minus_others : forall ref others s, NoDup (ref :: others) -> In s (ref :: others) ->
+  ind_cell (Some s) ref = (q1 - qsum (map (ind_cell (Some s)) others))%Qc.
+Proof. exact reference_dummy_is_rest. Qed.
+
+Print Assumptions C03_full_dummies_sum_to_intercept.
+Print Assumptions C03_reference_dummy_is_intercept_minus_others.
 Print Assumptions C03_simplify_preserves_components.
 Print Assumptions C03_simplify_wellformed.
 Print Assumptions C03_materializer_uses_it.
